@@ -188,6 +188,35 @@ def transact_block(pid):
     ctx = cctx()
     fv = ctx.func('diskcache.core.Cache.transact')
     out = []
+    # entry state 'foreign': ANOTHER thread of the same Cache object is inside its block (it holds the write
+    # lock through its own connection and the owner mark names it); this thread, entering without retry,
+    # times out -- and must leave the other thread's mark alone
+    def foreign(st):
+        ctx.sql.busy = True
+        ctx.sql.faults = False
+        it = ctx.interp(st)
+        cache = make_cache(ctx, st, policy='none', nested=False)
+        other = st.fresh('other_tid', z3.IntSort())
+        st.assume(other != st.world['tid'])
+        mark = SV('int', other)
+        cache.fields['_txn_id'] = mark
+        st.ghost.update(self=cache, mark=mark)
+        return it.call_function(fv, [cache, False], {}, cm_body=lambda y: st.effect('BODY'))
+    nf = 0
+    for n, p in enumerate(explore(foreign, max_paths=200)):
+        busy = any(e[0] == 'BEGIN_BUSY' for e in p.state.trace)
+        if not busy:
+            continue            # the lock is held by the other thread: BEGIN cannot succeed in this state
+        nf += 1
+        base = '%s.transact[other thread inside its block]#%d' % (pid, n)
+        ok = p.kind == 'raise' and p.value.cls == 'Timeout' and not any(e[0] == 'BODY' for e in p.state.trace)
+        out.append(R(base + '.times_out_without_running', ok, 'transact', p, '%s %r' % (p.kind, p.value)))
+        ok = p.state.ghost['self'].fields['_txn_id'] is p.state.ghost['mark']
+        out.append(R(base + '.leaves_the_owner_mark_alone', ok, 'transact', p,
+                     'a thread that timed out changed the owner mark to %r while another thread is inside its block: that thread\'s '
+                     'next operation no longer nests and its block can neither commit nor roll back' % (p.state.ghost['self'].fields['_txn_id'],)))
+    if nf == 0:
+        out.append(Result('%s.transact[other thread inside its block]' % pid, 'vacuity', 'error', detail='no timeout path'))
     for nested in (False, True):
         for body_raises in (False, True):
             def body(st, nested=nested, body_raises=body_raises):
@@ -395,6 +424,11 @@ def extra_tasks(pid):
         ts += [('contracts.traces', 'exclusive_create', ())]
     if pid in ('C05', 'C06', 'C07'):
         ts += [('contracts.traces', 'transact_block', (pid,))]
+    if pid == 'C08':
+        # the size a row records is the size Disk.store reports: its contract (recorded size = bytes in the
+        # value file, 0 for inline values) is the C01.store.size family, re-run here under C08's name
+        from contracts import c01
+        ts += [t for t in c01.tasks('quick') if t[1] == 'roundtrip' and t[2][0] == 'Disk']
     if pid == 'C06':
         ts += [('contracts.fanout_common', 'fanout_transact', ()), ('contracts.fanout_common', 'persistent_transact', ())]
     return ts
@@ -403,6 +437,11 @@ def extra_tasks(pid):
 def post_process(pid, results):
     out = []
     for r in results:
+        if pid == 'C08' and r['name'].startswith('C01.'):
+            if not r['name'].startswith('C01.store.size'):
+                continue
+            r = Result('C08.' + r['name'][4:], r['kind'], r['verdict'],
+                       **{k: v for k, v in r.items() if k not in ('name', 'kind', 'verdict')})
         if pid == 'C14' and r['name'].startswith('C13.'):
             if not r['name'].endswith('.result'):
                 continue            # only the Timeout / result mapping belongs to C14
